@@ -15,6 +15,10 @@ use vcore::{ensure, Ctx, Outcome};
 pub struct Inbound {
     /// locally configured record TTL in seconds (None = records do not expire locally)
     record_ttl_s: Option<u32>,
+    /// locally configured *provider* record TTL in seconds: an independent setting that must not
+    /// influence the lifetime of a value record
+    #[serde(default)]
+    provider_ttl_s: Option<u32>,
     /// remaining lifetime given by the sending peer, in milliseconds
     given_ms: Option<u64>,
     filter: bool,
@@ -29,7 +33,7 @@ pub struct Inbound {
 }
 
 fn inbound(c: &Inbound) -> Outcome {
-    let cfg = Cfg { record_ttl: c.record_ttl_s.map(|s| Duration::from_secs(s as u64)), provider_ttl: None, filter: c.filter, replication_factor: c.replication_factor as usize };
+    let cfg = Cfg { record_ttl: c.record_ttl_s.map(|s| Duration::from_secs(s as u64)), provider_ttl: c.provider_ttl_s.map(|s| Duration::from_secs(s as u64)), filter: c.filter, replication_factor: c.replication_factor as usize };
     let mut b = behaviour(&cfg);
     for i in 0..c.table_peers {
         let p = vcore::gen::synthetic_peer(1000 + i as u64);
@@ -69,6 +73,13 @@ fn inbound(c: &Inbound) -> Outcome {
     if c.given_ms.is_some_and(|ms| ms < 1000) {
         labels.push("given<1s");
     }
+    labels.push(match (c.record_ttl_s, c.provider_ttl_s) {
+        (a, b) if a == b => "provider_ttl==record_ttl",
+        (Some(_), None) => "provider_ttl:none,record_ttl:some",
+        (None, Some(_)) => "provider_ttl:some,record_ttl:none",
+        (Some(a), Some(b)) if b > a => "provider_ttl>record_ttl",
+        _ => "provider_ttl<record_ttl",
+    });
     let Some(stored) = stored else {
         labels.push("not-stored(expired-on-arrival)");
         // not storing is always within the statement; but it must not happen when nothing limits the lifetime
@@ -77,7 +88,7 @@ fn inbound(c: &Inbound) -> Outcome {
     };
     labels.push("stored");
     let detail = |what: &str| {
-        json!({"what": what, "given_ms": c.given_ms, "record_ttl_s": c.record_ttl_s, "filter": c.filter,
+        json!({"what": what, "given_ms": c.given_ms, "record_ttl_s": c.record_ttl_s, "provider_ttl_s": c.provider_ttl_s, "filter": c.filter,
             "stored_expires_in_ms_after_t1": stored.expires.map(|e| e.saturating_duration_since(t1).as_millis() as u64)})
     };
     match stored.expires {
@@ -154,13 +165,13 @@ pub fn run(ctx: &mut Ctx) {
     ctx.assume("outbound: ttl read through the shim around the real record_to_proto and through the real codec (verif::{req,resp}_{to,from}_bytes)");
     ctx.check(
         "inbound",
-        "record_ttl in {None, 1 s..36 h}, peer expiry in {None, 1 ms..48 h (biased to <2 s)}, Unfiltered/FilterBoth, replication factor 1..3 with 0..8 routing-table peers (num_beyond_k varies), publisher None/sender/other, optional existing record; non-trivial = exactly one of the two limits is unset, or the given lifetime is below one second",
+        "record_ttl in {None, 1 s..36 h}, provider_record_ttl drawn independently from the same set (the two settings differ in most cases), peer expiry in {None, 1 ms..48 h (biased to <2 s)}, Unfiltered/FilterBoth, replication factor 1..3 with 0..8 routing-table peers (num_beyond_k varies), publisher None/sender/other, optional existing record; non-trivial = exactly one of the two limits is unset, or the given lifetime is below one second",
         ctx.n(60_000, 1_500_000),
         &|| {
-            let ttl = prop_oneof![2 => Just(None), 1 => (1u32..10).prop_map(Some), 2 => (1u32..=36 * 3600).prop_map(Some)];
+            let ttl = || prop_oneof![2 => Just(None), 1 => (1u32..10).prop_map(Some), 2 => (1u32..=36 * 3600).prop_map(Some)];
             let given = prop_oneof![2 => Just(None), 2 => (1u64..2000).prop_map(Some), 2 => (1u64..=48 * 3600 * 1000).prop_map(Some), 1 => (1000u64..100_000).prop_map(Some)];
-            (ttl, given, any::<bool>(), 1u8..=3, 0u8..=8, 0u8..3, proptest::option::of(0u8..3), proptest::option::weighted(0.3, proptest::option::of(1u32..100_000)))
-                .prop_map(|(record_ttl_s, given_ms, filter, replication_factor, table_peers, key, publisher, existing)| Inbound { record_ttl_s, given_ms, filter, replication_factor, table_peers, key, publisher, existing })
+            (ttl(), ttl(), given, any::<bool>(), 1u8..=3, 0u8..=8, 0u8..3, proptest::option::of(0u8..3), proptest::option::weighted(0.3, proptest::option::of(1u32..100_000)))
+                .prop_map(|(record_ttl_s, provider_ttl_s, given_ms, filter, replication_factor, table_peers, key, publisher, existing)| Inbound { record_ttl_s, provider_ttl_s, given_ms, filter, replication_factor, table_peers, key, publisher, existing })
                 .boxed()
         },
         &inbound,
